@@ -722,6 +722,115 @@ func main() {
 	})
 	total(st)
 
+	// scanner sessions: one scanner value reused for row after row (the rows.Next loop). Every Scan must leave the
+	// scanner exactly as a fresh scanner would be after scanning that row alone - value, SRID, Valid and error.
+	{
+		pt := orb.Point{1, 2}
+		lsg := orb.LineString{{3, 4}, {5, 6}}
+		mustE := func(g orb.Geometry, srid int, o binary.ByteOrder) []byte { b, _ := ewkb.Marshal(g, srid, o); return b }
+		pre := func(srid uint32, b []byte) []byte {
+			var p4 [4]byte
+			binary.LittleEndian.PutUint32(p4[:], srid)
+			return append(p4[:], b...)
+		}
+		rows := []struct {
+			name string
+			v    interface{}
+		}{
+			{"point srid 4326 LE", mustE(pt, 4326, binary.LittleEndian)},
+			{"point no srid LE", mustE(pt, 0, binary.LittleEndian)},
+			{"line srid 3857 BE", mustE(lsg, 3857, binary.BigEndian)},
+			{"line no srid, hex text", []byte(hex.EncodeToString(mustE(lsg, 0, binary.LittleEndian)))},
+			{"NULL", nil},
+			{"garbage", []byte{9, 9, 9, 9, 9, 9, 9, 9, 9}},
+			{"prefix 4326 + point", pre(4326, mustE(pt, 0, binary.LittleEndian))},
+			{"prefix 0 + line", pre(0, mustE(lsg, 0, binary.LittleEndian))},
+		}
+		type obs struct {
+			g     string
+			srid  int
+			valid bool
+			err   string
+			dst   string
+		}
+		kinds := []string{"ewkb.Scanner(nil)", "ewkb.Scanner(*Point)", "ewkb.Scanner(*LineString)", "ewkb.ScannerPrefixSRID(nil)", "wkb.Scanner(nil)", "wkb.Scanner(*Point)"}
+		type scanner struct {
+			scan func(v interface{}) obs
+		}
+		mk := func(kind int) scanner {
+			errS := func(e error) string {
+				if e == nil {
+					return ""
+				}
+				return e.Error()
+			}
+			cp := func(v interface{}) interface{} {
+				if b, ok := v.([]byte); ok {
+					return append([]byte(nil), b...)
+				}
+				return v
+			}
+			switch kind {
+			case 0, 1, 2, 3:
+				var dp orb.Point
+				var dl orb.LineString
+				var s *ewkb.GeometryScanner
+				switch kind {
+				case 0:
+					s = ewkb.Scanner(nil)
+				case 1:
+					s = ewkb.Scanner(&dp)
+				case 2:
+					s = ewkb.Scanner(&dl)
+				default:
+					s = ewkb.ScannerPrefixSRID(nil)
+				}
+				return scanner{func(v interface{}) obs {
+					err := s.Scan(cp(v))
+					return obs{refgeom.Bits(s.Geometry), s.SRID, s.Valid, errS(err), fmt.Sprint(dp, dl)}
+				}}
+			default:
+				var dp orb.Point
+				var s *wkb.GeometryScanner
+				if kind == 4 {
+					s = wkb.Scanner(nil)
+				} else {
+					s = wkb.Scanner(&dp)
+				}
+				return scanner{func(v interface{}) obs {
+					err := s.Scan(cp(v))
+					return obs{refgeom.Bits(s.Geometry), 0, s.Valid, errS(err), fmt.Sprint(dp)}
+				}}
+			}
+		}
+		sdepth := ev.Pick(r, 3, 4)
+		st = r.Explore("scanner-sessions", fmt.Sprintf("every history of 1..%d rows over %d row values (with / without SRID, both byte orders, hex text, NULL, garbage, SRID-prefixed) through one reused scanner of %d kinds: after every row the scanner reports what a fresh scanner reports for that row alone (typed destinations: compared after rows the fresh scanner accepts)", sdepth, len(rows), len(kinds)), mc.Opts{MaxDev: -1, Split: 2, NewLocal: newLocal}, func(c *mc.Ctx) {
+			kind := c.Choose(len(kinds))
+			n := 1 + c.Choose(sdepth)
+			live := mk(kind)
+			var hist []string
+			for i := 0; i < n; i++ {
+				row := rows[c.Choose(len(rows))]
+				hist = append(hist, row.name)
+				got := live.scan(row.v)
+				want := mk(kind).scan(row.v)
+				if want.err != "" || !want.valid {
+					// a refused or NULL row: value, SRID and destination are whatever the scanner had; the verdict must agree
+					if got.err != want.err || got.valid != want.valid {
+						c.Failf("scanner-session", "%s after rows %v: err=%q valid=%v, a fresh scanner gives err=%q valid=%v", kinds[kind], hist, got.err, got.valid, want.err, want.valid)
+						return
+					}
+					continue
+				}
+				if got != want {
+					c.Failf("scanner-session", "%s after rows %v: %+v, a fresh scanner gives %+v", kinds[kind], hist, got, want)
+					return
+				}
+			}
+			c.NonTrivial()
+		})
+		total(st)
+	}
 	// sessions: one Encoder and one Decoder used for a whole history of calls. The reference is the history
 	// replayed on fresh objects: every Encode must append exactly what a fresh Marshal with the encoder's
 	// current byte order and SRID produces, and one Decoder must read the stream back member by member.
